@@ -65,4 +65,45 @@ Proof. intros H Hz Hb T. unfold compose_ens in H. rewrite Hz in H.
   inversion H; subst e'. cbn [ens_states ens_prob_dist ens_eps_zero]. rewrite <- L2.
   rewrite map_fst_combine, map_snd_combine by exact L1. repeat split; try reflexivity; [exact Ed|].
   rewrite combine_length, <- L1, Nat.min_id. exact L3. Qed.
+(* the constructor keeps the shape it is given *)
+Lemma construct_shape eps ps sh d : construct F tol eps ps (Some sh) = MOk d -> d_shape F d = sh.
+Proof. unfold construct. destruct (validate F tol false ps); [|discriminate].
+  destruct (match Some sh with Some [] => true | _ => false end); [discriminate|]. destruct (negb _); [discriminate|].
+  cbv zeta. destruct (forallb _ ps); [intros H; inversion H; reflexivity|].
+  destruct (validate F tol true _); [|discriminate]. intros H; inversion H; reflexivity. Qed.
+
+Lemma md_new_shape pp sh m : md_new F tol pp sh = PRet m -> md_shape F m = map Z.of_nat sh /\ List.length (md_ps F m) = List.length pp.
+Proof. unfold md_new. destruct (construct F tol tol pp (Some sh)) as [d|c] eqn:E; [|discriminate].
+  cbn [to_py]. intros H. inversion H; subst m. cbn [md_of_dist md_shape md_ps]. split; [now rewrite (construct_shape _ _ _ _ E)|].
+  revert E. unfold construct. destruct (validate F tol false pp); [|discriminate].
+  destruct (match Some sh with Some [] => true | _ => false end); [discriminate|]. destruct (negb _); [discriminate|].
+  cbv zeta. destruct (forallb _ pp); destruct (_ && _); try (destruct (validate F tol true _); [|discriminate]);
+    intros H'; inversion H'; cbn [d_ps]; now rewrite ?map_length. Qed.
+
+(* one measurement of a state: the ensemble's shape IS the instrument's outcome shape (multi-index kept), its states are the
+   oracle's states in order, its distribution is built from the oracle's probabilities with the default threshold *)
+Theorem compose_state_table mshape mp_eps s (e' : ensemble F St) :
+  compose_state F tol St meas mshape mp_eps s = PRet e' ->
+  exists ss pp, meas s (c1 F) = PRet (ss, pp) /\ ens_states e' = ss /\ md_new F tol pp mshape = PRet (ens_prob_dist e') /\
+                md_shape F (ens_prob_dist e') = map Z.of_nat mshape /\ List.length ss = List.length pp /\ ens_eps_zero e' = mp_eps.
+Proof. unfold compose_state. destruct (meas s (c1 F)) as [[ss pp]|x]; cbn [pbind]; [|discriminate].
+  destruct (md_new F tol pp mshape) as [d|x] eqn:Ed; cbn [pbind]; [|discriminate].
+  unfold ens_init. destruct (ltb F mp_eps (c0 F)); [discriminate|].
+  destruct (Nat.eqb (List.length ss) (List.length (md_ps F d))) eqn:El; cbn [negb]; [|discriminate].
+  intros H. inversion H; subst e'. cbn [ens_states ens_prob_dist ens_eps_zero]. exists ss, pp.
+  destruct (md_new_shape _ _ _ Ed) as [S1 S2]. apply Nat.eqb_eq in El. repeat split; try reflexivity; try assumption. lia. Qed.
+
 End ComposeProofs.
+
+(* both routes to a twice-measured ensemble have the same multi-index structure: the composite instrument (outcome shape m1 ++ m2,
+   its own oracle measC) on the state, or the second instrument (oracle measB, outcome shape m2) on the ensemble (shape m1) of the first *)
+Theorem compose_routes_same_shape (F : OF) (tol : F) (St : Type) measC measB zero_obj m1 m2 eps1 eps2 s (e1 e12 ec : ensemble F St) :
+  compose_state F tol St measC (m1 ++ m2) eps1 s = PRet ec ->
+  compose_ens F tol St measB zero_obj m2 eps2 m1 e1 = PRet e12 ->
+  md_shape F (ens_prob_dist ec) = md_shape F (ens_prob_dist e12) /\ md_shape F (ens_prob_dist ec) = map Z.of_nat (m1 ++ m2).
+Proof. intros Hc Hs. destruct (compose_state_table F tol St measC _ _ _ _ Hc) as [ss [pp [_ [_ [_ [S1 _]]]]]].
+  unfold compose_ens in Hs.
+  destruct (if md_is_zero_dist F (ens_prob_dist e1) then _ else _) as [[pp' ss']|x]; cbn [pbind] in Hs; [|discriminate].
+  destruct (md_new F tol pp' (m1 ++ m2)) as [d|x] eqn:Ed; cbn [pbind] in Hs; [|discriminate].
+  unfold ens_init in Hs. destruct (ltb F _ (c0 F)); [discriminate|]. destruct (negb _); [discriminate|].
+  inversion Hs; subst e12. cbn [ens_prob_dist]. destruct (md_new_shape F tol _ _ _ Ed) as [S2 _]. split; [now rewrite S1, S2|exact S1]. Qed.
